@@ -18,7 +18,7 @@ def ParentOK (ch : Choices) (p : Ctx) : Object → Prop
 
 theorem object_run_ev (ch : Choices) (wsE : Nat → List Ev) (hws : WsOnly wsE) (lvl : Nat) (obj : Object) (hobj : XObjOK2 obj)
     (p : Ctx) (rest : List Ctx) (hp : ParentOK ch p obj) (st : RSt) (hs : st.stack = p :: rest) (hc : st.cur = none)
-    (hct : st.commentText = []) (tl : List Ev) :
+    (hct : st.commentText = []) (hcp : st.commentPending = false) (tl : List Ev) :
     runEvents {} (objectEvs ch wsE lvl obj ++ tl) st =
       runEvents {} tl { markDone st with out := project (specOpts ch) obj :: st.out } := by
   cases obj with
@@ -37,7 +37,7 @@ theorem object_run_ev (ch : Choices) (wsE : Nat → List Ev) (hws : WsOnly wsE) 
   | changeset id ca cl nc ncm uid user bl tr tags cs =>
     have h : XCsOK id ca cl nc ncm uid user bl tr tags cs := hobj
     have hp' : TopParent p := hp
-    exact changeset_run_ev ch wsE hws lvl id ca cl nc ncm uid user bl tr tags cs h st p hp' rest hs hc hct tl
+    exact changeset_run_ev ch wsE hws lvl id ca cl nc ncm uid user bl tr tags cs h st p hp' rest hs hc hct hcp tl
 
 /-! ### sequences -/
 
@@ -60,30 +60,32 @@ theorem seqResult_append (o : Opts) (st : RSt) (a b : List Object) :
 
 theorem seqResult_fields (o : Opts) (objs : List Object) (st : RSt) :
     (seqResult o objs st).stack = st.stack ∧ (seqResult o objs st).cur = st.cur ∧
-    (seqResult o objs st).commentText = st.commentText := by
+    (seqResult o objs st).commentText = st.commentText ∧
+    (seqResult o objs st).commentPending = st.commentPending := by
   rcases st with ⟨stack, header, version, headerOut, cur, out, ct⟩
   cases objs <;> cases headerOut <;> simp [seqResult, markDone]
 
 theorem markDone_fields (st : RSt) :
     (markDone st).stack = st.stack ∧ (markDone st).cur = st.cur ∧ (markDone st).commentText = st.commentText ∧
-    (markDone st).out = st.out := by
+    (markDone st).out = st.out ∧ (markDone st).commentPending = st.commentPending := by
   rcases st with ⟨stack, header, version, headerOut, cur, out, ct⟩
   cases headerOut <;> simp [markDone]
 
 theorem objs_run_ev (ch : Choices) (wsE : Nat → List Ev) (hws : WsOnly wsE) (lvl : Nat) (p : Ctx) (rest : List Ctx)
     (tl : List Ev) : ∀ (objs : List Object) (_ : ∀ o ∈ objs, XObjOK2 o) (_ : ∀ o ∈ objs, ParentOK ch p o) (st : RSt),
-      st.stack = p :: rest → st.cur = none → st.commentText = [] →
+      st.stack = p :: rest → st.cur = none → st.commentText = [] → st.commentPending = false →
       runEvents {} ((objs.map (objectEvs ch wsE lvl)).flatten ++ tl) st = runEvents {} tl (seqResult (specOpts ch) objs st) := by
   intro objs
   induction objs with
-  | nil => intro _ _ st _ _ _; rw [seqResult_nil]; rfl
+  | nil => intro _ _ st _ _ _ _; rw [seqResult_nil]; rfl
   | cons obj objs ih =>
-    intro hall hpar st hs hc hct
+    intro hall hpar st hs hc hct hcp
     simp only [List.map_cons, List.flatten_cons, List.append_assoc]
-    rw [object_run_ev ch wsE hws lvl obj (hall obj (by simp)) p rest (hpar obj (by simp)) st hs hc hct]
-    obtain ⟨m1, m2, m3, _⟩ := markDone_fields st
+    rw [object_run_ev ch wsE hws lvl obj (hall obj (by simp)) p rest (hpar obj (by simp)) st hs hc hct hcp]
+    obtain ⟨m1, m2, m3, _, m5⟩ := markDone_fields st
     rw [ih (fun o ho => hall o (by simp [ho])) (fun o ho => hpar o (by simp [ho]))
-      { markDone st with out := project (specOpts ch) obj :: st.out } (m1.trans hs) (m2.trans hc) (m3.trans hct),
+      { markDone st with out := project (specOpts ch) obj :: st.out } (m1.trans hs) (m2.trans hc) (m3.trans hct)
+      (m5.trans hcp),
       seqResult_cons]
 
 /-! ### sections of a change file -/
@@ -149,7 +151,8 @@ theorem parentOK_section (ch : Choices) (hosc : ch.osc = true) (op : Nat) (o : O
 
 theorem section_run_ev (ch : Choices) (wsE : Nat → List Ev) (hws : WsOnly wsE) (hosc : ch.osc = true) (op : Nat)
     (hop : op = 1 ∨ op = 2 ∨ op = 3) (grp : List Object) (hne : grp ≠ []) (hgrp : ∀ o ∈ grp, XObjOK o ∧ opOfObj o = op)
-    (tl : List Ev) (st : RSt) (hs : st.stack = [Ctx.osmChange]) (hc : st.cur = none) (hct : st.commentText = []) :
+    (tl : List Ev) (st : RSt) (hs : st.stack = [Ctx.osmChange]) (hc : st.cur = none) (hct : st.commentText = [])
+    (hcp : st.commentPending = false) :
     runEvents {} (elEvs ch wsE 1 (opName op) [] (grp.map (objectEvs ch wsE 2)) ++ tl) st =
       runEvents {} tl (seqResult (specOpts ch) grp st) := by
   have hnt : NoText st := by unfold NoText; rw [hs]; simp
@@ -157,7 +160,7 @@ theorem section_run_ev (ch : Choices) (wsE : Nat → List Ev) (hws : WsOnly wsE)
     rw [xpick_nil]
     rcases hop with rfl | rfl | rfl <;>
       simp (config := { decide := true }) [startElement, hs, dataLevel, sectionCtx]
-  obtain ⟨m1, m2, m3, _⟩ := markDone_fields (push st (sectionCtx op))
+  obtain ⟨m1, m2, m3, _, m5⟩ := markDone_fields (push st (sectionCtx op))
   have hs1 : (markDone (push st (sectionCtx op))).stack = sectionCtx op :: [Ctx.osmChange] := by
     rw [m1]; simp [push, hs]
   rw [run_open ch wsE hws 1 _ _ _ tl st _ hnt hopen]
@@ -165,8 +168,8 @@ theorem section_run_ev (ch : Choices) (wsE : Nat → List Ev) (hws : WsOnly wsE)
     (fun o ho => by
       have := (hgrp o ho).1
       cases o <;> first | exact this | exact absurd this (by simp [XObjOK]))
-    (fun o ho => parentOK_section ch hosc op o (hgrp o ho).1 (hgrp o ho).2) _ hs1 (m2.trans hc) (m3.trans hct)]
-  obtain ⟨f1, f2, f3⟩ := seqResult_fields (specOpts ch) grp (markDone (push st (sectionCtx op)))
+    (fun o ho => parentOK_section ch hosc op o (hgrp o ho).1 (hgrp o ho).2) _ hs1 (m2.trans hc) (m3.trans hct) (m5.trans hcp)]
+  obtain ⟨f1, f2, f3, f4⟩ := seqResult_fields (specOpts ch) grp (markDone (push st (sectionCtx op)))
   have hnt2 : NoText (seqResult (specOpts ch) grp (markDone (push st (sectionCtx op)))) := by
     unfold NoText; rw [f1, hs1]; unfold sectionCtx; rcases hop with rfl | rfl | rfl <;> simp
   rw [run_chars _ _ _ (allChars_if hws _ _) hnt2, run_stop]
@@ -185,19 +188,19 @@ theorem section_run_ev (ch : Choices) (wsE : Nat → List Ev) (hws : WsOnly wsE)
 
 theorem sections_run_ev (ch : Choices) (wsE : Nat → List Ev) (hws : WsOnly wsE) (hosc : ch.osc = true) (tl : List Ev) :
     ∀ (S : List (Nat × List Object)) (_ : SecOK S) (st : RSt), st.stack = [Ctx.osmChange] → st.cur = none →
-      st.commentText = [] →
+      st.commentText = [] → st.commentPending = false →
       runEvents {} ((S.map fun (x : Nat × List Object) => elEvs ch wsE 1 (opName x.1) [] (x.2.map (objectEvs ch wsE 2))).flatten ++ tl) st =
         runEvents {} tl (seqResult (specOpts ch) (S.flatMap Prod.snd) st) := by
   intro S
   induction S with
-  | nil => intro _ st _ _ _; rw [List.flatMap_nil, seqResult_nil]; rfl
+  | nil => intro _ st _ _ _ _; rw [List.flatMap_nil, seqResult_nil]; rfl
   | cons sg S ih =>
-    intro hS st hs hc hct
+    intro hS st hs hc hct hcp
     obtain ⟨h1, h2, h3⟩ := hS sg (by simp)
     simp only [List.map_cons, List.flatten_cons, List.append_assoc, List.flatMap_cons]
-    rw [section_run_ev ch wsE hws hosc sg.1 h1 sg.2 h2 h3 _ st hs hc hct]
-    obtain ⟨f1, f2, f3⟩ := seqResult_fields (specOpts ch) sg.2 st
-    rw [ih (fun x hx => hS x (by simp [hx])) _ (f1.trans hs) (f2.trans hc) (f3.trans hct), seqResult_append]
+    rw [section_run_ev ch wsE hws hosc sg.1 h1 sg.2 h2 h3 _ st hs hc hct hcp]
+    obtain ⟨f1, f2, f3, f4⟩ := seqResult_fields (specOpts ch) sg.2 st
+    rw [ih (fun x hx => hS x (by simp [hx])) _ (f1.trans hs) (f2.trans hc) (f3.trans hct) (f4.trans hcp), seqResult_append]
 
 /-! ### the root element and the whole document -/
 
@@ -244,11 +247,11 @@ theorem renderEvs_read (ch : Choices) (wsE : Nat → List Ev) (hws : WsOnly wsE)
     cases hc : ch.osc
     · simp only [Bool.false_eq_true, if_false]
       have hs : stB.stack = Ctx.osm :: [] := by rw [hsB]; simp [rootCtx, o, specOpts, hc]
-      exact objs_run_ev ch wsE hws 1 Ctx.osm [] tl objs hall (fun ob _ => parentOK_plain ch hc ob) stB hs rfl rfl
+      exact objs_run_ev ch wsE hws 1 Ctx.osm [] tl objs hall (fun ob _ => parentOK_plain ch hc ob) stB hs rfl rfl rfl
     · simp only [if_true]
       have hs : stB.stack = [Ctx.osmChange] := by rw [hsB]; simp [rootCtx, o, specOpts, hc]
       obtain ⟨s1, s2⟩ := sections_ok objs (fun ob hob => xobjOK_of ob (hall ob hob) (hosc hc ob hob))
-      have := sections_run_ev ch wsE hws hc tl (sections objs) s1 stB hs rfl rfl
+      have := sections_run_ev ch wsE hws hc tl (sections objs) s1 stB hs rfl rfl rfl
       rw [s2] at this
       exact this
   -- the end tag
